@@ -222,6 +222,14 @@ func lifeRun(e *Env) {
 		e.S.Spawn(fmt.Sprintf("server%d", l.ID), func() { w.server(cy) })
 	}
 
+	// a Connect issued by a dup-connect task must never produce a connection:
+	// if the connection it meant to disturb has just ended, its dial fails
+	e.DialDeny = func() error {
+		if t := e.S.Self(); t != nil && strings.HasPrefix(t.ID, "dup-connect") {
+			return errors.New("sim: connection refused")
+		}
+		return nil
+	}
 	w.c = NewClient(ClientOpts{Nick: w.nick, Ident: "sim", Name: "Sim User", Flood: w.flood, PingFreq: w.pingFreq, Track: w.track, CtxDialer: w.ctxDial})
 	w.install()
 	e.Notef("cycles=%d reconnect-from=%s track=%v flood-protection=%v ping=%v ctx-dialer=%v", w.ncycles,
